@@ -775,7 +775,7 @@ pub fn answers(s: &S, kind: Kind, hay: &[u8], span: (usize, usize), anchored: bo
     let find = call(|| s.try_find(inp()));
     let iter = call(|| s.try_find_iter(inp()));
     let earliest = call(|| s.try_find(inp().earliest(true)));
-    let cap = (hay.len() + 2) * (s.patterns_len() + 1) + 8;
+    let cap = (span.1.saturating_sub(span.0) + 2) * (s.patterns_len() + 1) + 8;
     let (overlapping, overlapping_steps) = if kind == Kind::Standard {
         let it = if anchored {
             None
